@@ -4,6 +4,7 @@ mod plan;
 mod trig;
 mod shard;
 mod grow;
+mod scen;
 
 fn main() {
     let args: Vec<String> = std::env::args().collect();
@@ -17,6 +18,7 @@ fn main() {
         "trigger-stdin" => trig::from_stdin(),
         "shard-stdin" => shard::from_stdin(),
         "grow-stdin" => grow::from_stdin(),
+        "scenario" => scen::run(),
         m => {
             eprintln!("unknown mode {}", m);
             std::process::exit(2);
